@@ -165,7 +165,7 @@ func TestC26(t *testing.T) {
 		newClientV2("C", 5003, []byte("client-c-public-key-hash-0123456")),
 	}
 
-	ev.RapidCheck(t, 3000, 100000, func(t *rapid.T) {
+	ev.RapidCheck(t, 2000, 100000, func(t *rapid.T) {
 		// fresh store per sequence
 		fx.kv.MemoryKV = memory.WithHashFn(chord.Hash)
 		for _, s := range servers {
